@@ -352,7 +352,8 @@ def build_fallback_doc(rng: random.Random) -> Tuple[bytes, Dict[int, int], int, 
     words = ["Alpha", "beta", "GAMMA", "delta42", "x", "Hello World", "fallback", "Zed"]
     lines = [rng.choice(words) for _ in range(rng.randint(1, 4))]
     content = b"BT /F1 12 Tf 72 700 Td 14 TL " + b" ".join(b"(" + w.encode() + b") Tj T*" for w in lines) + b" ET"
-    st = Stream({"Filter": Name("ASCIIHexDecode")}, content.hex().encode() + b">")
+    # ISO 32000-1 7.3.8.1: an end-of-line marker before `endstream` is recommended, not required
+    st = Stream({"Filter": Name("ASCIIHexDecode")}, content.hex().encode() + b">", tail=rng.choice([b"\n", b"\n", b"", b"\r\n"]))
     doc = page_doc([{"content": st, "resources": {"Font": {"F1": font_type1()}}}])
     extra: Dict[int, Any] = {}
     for i in range(nobj):
